@@ -167,6 +167,22 @@ def classify(diags, meta):
     return failures, fatal
 
 
+def fatal_fn(d, meta):
+    """Id of the extracted function in whose body (or injected contract text) a front-end error is
+    located; None when it is in template text or cannot be located."""
+    for s in d.get('spans', []):
+        if not s.get('is_primary'):
+            continue
+        fname = str(s.get('file_name', ''))
+        if not (fname.endswith('dev.rs') or 'minimq_verus' in fname):
+            continue
+        ln = s['line_start'] - 1
+        m = meta[ln] if 0 <= ln < len(meta) else None
+        if m and 'fn' in m and m.get('part') in ('body', 'hint', 'await', 'sig') or (m and 'fn' in m and str(m.get('part', '')).startswith('loop')):
+            return m['fn']
+    return None
+
+
 def functions_with_diagnostics(diags, meta):
     """Ids of all functions that have at least one error diagnostic located in them (used by the
     reachability twin: an assertion failure or an exhausted resource limit both mean that
